@@ -15,6 +15,11 @@ def gen_case(rng, i):
     for n in scalars:
         for _ in range(3):
             calls.append({"k": "echo", "type": n, "bits": G.scalar_value(rng, n)})
+        if n.startswith("Float"):       # a zero, then the OTHER zero, then the first again: equal but not the same number
+            import struct as _st
+            fmt = "<d" if n == "Float64" else "<f"
+            for z in rng.choice([(0.0, -0.0, 0.0), (-0.0, 0.0, -0.0)]):
+                calls.append({"k": "echo", "type": n, "bits": list(_st.pack(fmt, z))})
         for vk, ve in rng.sample(VIEWS, 4):
             calls.append({"k": "first_np", "type": n, "viewkind": vk, "view": ve})
         calls.append({"k": "first_xo", "type": n, "pre": rng.choice([0, 8, 24]), "grow": rng.choice([None, 64, 1000])})
@@ -25,6 +30,7 @@ def gen_case(rng, i):
         calls.append({"k": "refusals", "type": n, "bits": G.scalar_value(rng, n)})
         if n in ("Float64", "Float32"):       # a complex array is no array of reals
             calls.append({"k": "wrong_dtype", "type": n, "other": "complex128" if n == "Float64" else "complex64"})
+    calls.append({"k": "reregister"})
     calls.append({"k": "same_object", "x": rng.choice([0.1, 1e-60, 2.0 / 3.0, 1.0000001]), "n": rng.choice([7, 2 ** 40 + 1, -3])})
     for _ in range(3):
         calls.append({"k": "struct", "n_objs": rng.choice([1, 2, 3]), "gaps": rng.choice([None, [8], [24, 8, 40]]), "cap": rng.choice([64, 128, 1024]),
